@@ -286,7 +286,7 @@ impl Sys {
             ensure!(expected.contains(&bits), prop, "iteration-yields-unmatched", "{} yields {:?} of an archetype the query does not match", what, bits);
             ensure!(seen.insert(bits), prop, "iteration-yields-twice", "{} yields uid {} twice", what, ent.uid);
             let exp = with_arch!(ent.arch as usize, A => <A as Arch>::expect(ent.uid, &ent.vals));
-            let ok = if row.full { row.dig == exp } else { row.dig.iter().zip(exp.iter()).all(|(x, y)| x == y) };
+            let ok = row_matches(ent.arch as usize, row, &exp);
             ensure!(ok, prop, "iteration-wrong-pairing", "{} pairs handle {:?} (uid {}) with data {:x?}, expected {:x?}", what, bits, ent.uid, row.dig, exp);
         }
         if !allow_prefix {
@@ -395,7 +395,7 @@ impl Sys {
                     Some(r) => r,
                     None => return vio!("C01", "live-handle-rejected:read", "{} rejected live uid {}", what, ent.uid),
                 };
-                let ok = if row.full { row.dig == exp } else { row.dig[0] == exp[0] };
+                let ok = row_matches(A::IDX, &row, &exp);
                 ensure!(ok, "C02", "read-wrong-values", "{} returned {:x?} for uid {}, expected {:x?}", what, row.dig, ent.uid, exp);
                 if let Some(rb) = row.bits {
                     ensure!(rb == bits, "C02", "read-wrong-handle", "{} reported handle {:?} for a lookup of {:?}", what, rb, bits);
